@@ -93,6 +93,8 @@ C14_OPS += two_parent("O14.7", "root_rename", "rename: renameat2(parent(src) fd,
 
 FD = "utils::fd::verif_h_fd::"
 
+O_C09_CAPI = ob("O9.3", "capi::core::verif_h_capi_core::capi_reopen_entry", "pathrs_reopen (C entry point) for EVERY flag word and every negative / one valid descriptor: negative => error id, nothing touched; creation flags => error id, procfs open never reached; otherwise exactly one open_follow with flags minus O_NOFOLLOW and its descriptor returned", features="capi", stubs=["FdExt>::metadata", "ProcfsHandle::open_follow", "store_error", "ProcfsHandle::new"], cost=5)
+
 C09_OBS = [
     ob("O9.1", FD + "fd_proc_subpath_all", "proc_subpath(fd) for EVERY i32: fd >= 0 or AT_FDCWD => Ok, other negatives => InvalidArgument (descriptor number 0 included)", cost=1),
     ob("O9.2a", FD + "fd_reopen_plain", "FdExt::reopen on a non-symlink handle, no creation flags, ALL other flag bits: exactly one open_follow(ProcThreadSelf, ., flags minus O_NOFOLLOW); failing fstat => error, no open", stubs=["FdExt>::metadata", "ProcfsHandle::open_follow"], cost=4),
@@ -169,6 +171,7 @@ C17_OBS = [
     ob("O17.4", CP + "capi_procfs_base_all", "CProcfsBase -> ProcfsBase for EVERY u64: Ok exactly for the three PATHRS_PROC_* values read from include/pathrs.h by the check at run time, mapped to the right base", features="capi", cost=1),
     ob("O17.5a", CC + "capi_mknod_bad_args", "pathrs_inroot_mknod with every negative fd / a NULL path: error id <= -4096, Root::create never reached, no descriptor touched", features="capi", stubs=CAPI_STUBS, cost=4),
     ob("O17.5b", CC + "capi_resolve_bad_args", "pathrs_inroot_resolve with every negative fd / a NULL path: same", features="capi", stubs=["RootRef::resolve", "store_error"], cost=4),
+    ob("O17.5c", CC + "capi_second_path_null", "pathrs_inroot_rename / symlink / hardlink with a NULL second path: error id <= -4096, operation never reached, nothing touched", features="capi", stubs=["RootRef::create", "RootRef::rename", "store_error"], cost=4),
     ob("O17.6", CC + "capi_mknod_decode", "pathrs_inroot_mknod for EVERY mode/dev: invalid S_IFMT (socket, link, none, undefined) => error id and no create", features="capi", stubs=CAPI_STUBS, cost=5),
 ]
 C14_CAPI = [
@@ -252,7 +255,7 @@ PROPERTIES = {
                        "for every open-flag bit pattern and an arbitrary kernel with ProcfsHandle::open_follow replaced by a recording contract stub.",
         "outside": "that /proc/thread-self/fd/N denotes the handle's inode whatever happened to its path (kernel magic-link semantics); the procfs side of open_follow (C06/C07); decimal rendering of N (format! is stubbed)",
         "assumptions": ["ProcfsHandle::open_follow replaced by a recording stub with arbitrary result", "fstatat answered by K"],
-        "obligations": C09_OBS,
+        "obligations": C09_OBS + [O_C09_CAPI],
     },
     "C13": {
         "explanation": "C13 (sequential part): utils::remove_all is executed for every name of up to L bytes against an arbitrary kernel. "
